@@ -26,7 +26,7 @@ META = {
 
 def obligations(tier):
     obs = []
-    for k in (1, 2, 3) if tier == "quick" else (1, 2, 3, 4, 5):
+    for k in (1, 2, 3) if tier == "quick" else (1, 2, 3, 4):
         obs.append(Ob(f"history_same_object_k{k}", "E1", "h_history", {"k": k, "fresh": False}, 600, f"{k} calls on one Encryptor: IV_i == R_i == nonce_i, one urandom(12) per call", weight=20 * k))
         obs.append(Ob(f"history_fresh_objects_k{k}", "E1", "h_history", {"k": k, "fresh": True}, 600, f"{k} calls on fresh Encryptors / through the CLI function", weight=20 * k))
     return obs
